@@ -115,10 +115,14 @@ impl<'tx> Tx<'tx> {
             false => TxLock::Ro(db.inner.mmap_lock.read()?),
         };
         let mut freelist = db.inner.freelist.lock()?.clone();
-        let mut meta = db.inner.meta()?;
-        debug_assert!(meta.valid());
+        let mut meta;
         {
             let mut open_ro_txs = db.inner.open_ro_txs.lock().unwrap();
+            // A reader has to pick its meta page and register itself in one step. If a writer
+            // could begin in between, it would not know about this reader and could release,
+            // and a later writer reuse, pages of the snapshot the reader is about to use.
+            meta = db.inner.meta()?;
+            debug_assert!(meta.valid());
             if writable {
                 meta.tx_id += 1;
                 if open_ro_txs.len() > 0 {
